@@ -278,19 +278,81 @@ func entityBundle(rng *rand.Rand) *jBundle {
 	return &jBundle{Files: []*jFile{{Path: "ent/v1/widget.j5s", Pkg: "ent.v1", Elems: []*jElem{{Entity: e}, enumDecl("Shade", "LIGHT", "DARK")}}}}
 }
 
+// shadowHistory: a package whose existing references could be captured by what an append brings in: a reference to
+// another package's type of the same short name, an inline object whose nested name is that of a package-level type.
+// Returns the bundle and the scripted append edits, applied in a random order.
+func shadowHistory(rng *rand.Rand) (*jBundle, []func() string) {
+	main := &jFile{Path: "local/v1/main.j5s", Pkg: "local.v1", Imports: []*jImport{{Path: "other.v1"}}, Elems: []*jElem{
+		objDecl("Foo", fld("name", tScalar(kString))),
+		objDecl("Item", fld("name", tScalar(kString))),
+		enumDecl("Level", "LOW", "HIGH"),
+		objDecl("Early", fld("title", tScalar(kString)), fld("anchor", tRef(kObject, "other.v1.Anchor", "other.v1.Anchor"))),
+		objDecl("Later", fld("mine", tRef(kObject, "Foo", "local.v1.Foo")), fld("mines", tArr(tRef(kObject, "Foo", "local.v1.Foo"))), fld("level", tRef(kEnum, "Level", "local.v1.Level"))),
+		{Service: &jService{Name: "Things", BasePath: "/local/v1", Methods: []*jMethod{
+			{Name: "First", HTTPMethod: "POST", Path: "/first", Req: []*jF{fld("given", tRef(kObject, "Item", "local.v1.Item"))}, HasRes: true, Res: []*jF{fld("first", tRef(kObject, "Item", "local.v1.Item")), fld("foo", tRef(kObject, "Foo", "local.v1.Foo"))}},
+			{Name: "Second", HTTPMethod: "GET", Path: "/second", HasRes: true, Res: []*jF{fld("item", tRef(kObject, "Item", "local.v1.Item"))}}}}},
+		{Topic: &jTopic{Name: "Things", Type: "publish", Messages: []*jTopicMsg{{Name: "PostThing", Fields: []*jF{fld("first", tRef(kObject, "Item", "local.v1.Item"))}}}}},
+	}}
+	other := &jFile{Path: "other/v1/types.j5s", Pkg: "other.v1", Elems: []*jElem{objDecl("Foo", fld("code", tScalar(kString))), objDecl("Anchor", fld("code", tScalar(kString))), enumDecl("Level", "ONE", "TWO"), objDecl("Item", fld("code", tScalar(kString)))}}
+	b := &jBundle{Files: []*jFile{main, other}}
+	inline := func() *jT {
+		return &jT{Kind: kObject, Inline: &jDecl{Kind: kObject, Fields: []*jF{fld("inner", tScalar(kString))}}}
+	}
+	early, later := main.Elems[3].Decl, main.Elems[4].Decl
+	svc, topic := main.Elems[5].Service, main.Elems[6].Topic
+	edits := []func() string{
+		func() string {
+			early.Fields = append(early.Fields, fld("theirs", tRef(kObject, "other.v1.Foo", "other.v1.Foo")))
+			return "shadow-foreign-same-name: append field theirs object:other.v1.Foo to object Early"
+		},
+		func() string {
+			early.Fields = append(early.Fields, fld("theirLevel", tRef(kEnum, "other.v1.Level", "other.v1.Level")))
+			return "shadow-foreign-same-name: append field theirLevel enum:other.v1.Level to object Early"
+		},
+		func() string {
+			svc.Methods[0].Res = append(svc.Methods[0].Res, fld("item", inline()))
+			return "shadow-inline-in-response: append inline object field item (nested Item) to response of First"
+		},
+		func() string {
+			svc.Methods[0].Req = append(svc.Methods[0].Req, fld("foo", inline()))
+			return "shadow-inline-in-request: append inline object field foo (nested Foo) to request of First"
+		},
+		func() string {
+			topic.Messages[0].Fields = append(topic.Messages[0].Fields, fld("item", inline()))
+			return "shadow-inline-in-topic: append inline object field item (nested Item) to topic message PostThing"
+		},
+		func() string {
+			later.Fields = append(later.Fields, fld("theirItem", tRef(kObject, "other.v1.Item", "other.v1.Item")))
+			return "shadow-foreign-same-name: append field theirItem object:other.v1.Item to object Later"
+		},
+		func() string {
+			svc.Methods[1].Res = append(svc.Methods[1].Res, fld("theirs", tRef(kObject, "other.v1.Item", "other.v1.Item")))
+			return "shadow-foreign-in-response: append field theirs object:other.v1.Item to response of Second"
+		},
+	}
+	rng.Shuffle(len(edits), func(i, j int) { edits[i], edits[j] = edits[j], edits[i] })
+	return b, edits
+}
+
 func runC13(r *rt.Runner) {
 	for b := 0; b < r.Scale(500, 15000); b++ {
 		r.Do(fmt.Sprintf("history/%d", b), func(c *rt.C) {
 			rng := c.Rand()
 			var bundle *jBundle
+			var scripted []func() string
 			if b%4 == 3 {
 				bundle = entityBundle(rng)
 			} else if b%8 == 2 {
 				bundle = dottedBundle(rng)
+			} else if b%8 == 6 {
+				bundle, scripted = shadowHistory(rng)
 			} else {
 				bundle = (&j5Gen{rng: rng}).randomBundle()
 			}
 			steps := 1 + rng.Intn(6)
+			if scripted != nil {
+				steps = len(scripted)
+			}
 			var versions []idTable
 			var edits []string
 			var sources []map[string]string
@@ -302,7 +364,12 @@ func runC13(r *rt.Runner) {
 			versions = append(versions, t0)
 			sources = append(sources, bundle.sources())
 			for s := 0; s < steps; s++ {
-				what := appendEdit(rng, bundle, s)
+				var what string
+				if scripted != nil {
+					what = scripted[s]()
+				} else {
+					what = appendEdit(rng, bundle, s)
+				}
 				edits = append(edits, what)
 				c.Feature("c13:edit:" + strings.SplitN(what, ":", 2)[0])
 				var tn idTable
